@@ -135,6 +135,22 @@ theorem multipart_trailing_backslash_refuted :
       some (C43.ofAscii "form-data", [(C43.ofAscii "name", C43.ofAscii "\"; filename=\"f")]) := by
   decide
 
+/-- the known finding at the `parse_multipart_form_data` level: with every other hypothesis in place (boundary `b`),
+    the upload `name = \`, `filename = f` is not recovered — it comes back as an ordinary argument named `"; filename="f`.
+    Hence the side condition of `multipart_roundtrip_partial` on trailing backslashes cannot be dropped. -/
+theorem multipart_roundtrip_full_refuted : ¬ multipart_roundtrip_full := by
+  intro h
+  have hwf : WellFormed {} [98] [{ name := [92], filename := some [102], value := [118] }] := by
+    constructor <;> decide
+  have h1 := h {} [98] [{ name := [92], filename := some [102], value := [118] }] hwf
+  rw [parseMultipart_single {} [98] _ hwf (by decide)] at h1
+  have h2 : (finishPart {} { name := [92], filename := some [102], value := [118] }
+      (C43.parseHeader (dispValue [92] (some [102])))).toOption =
+      some { arguments := [(C43.ofAscii "\"; filename=\"f", [[118]])] } := by decide
+  rw [h1] at h2
+  revert h2
+  decide
+
 /-! ### limits -/
 
 /-- the pieces `parse_multipart_form_data` iterates over, when there is a final boundary -/
